@@ -7,6 +7,7 @@
 #include <errno.h>
 #include <unistd.h>
 #include <signal.h>
+#include <sys/time.h>
 #include <time.h>
 #include <fcntl.h>
 #include <sys/mman.h>
@@ -142,6 +143,24 @@ static void on_signal(int sig)
         sim_write_result("infra", "infra:wallclock", "wall-clock safety net expired");
         _exit(2);
     }
+    if (sig == SIGVTALRM) {
+        /* Fires every 3 s of CPU time consumed by this run (independent of machine load).  A run
+         * that burns 12 s of CPU without passing a single scheduling point (every atomic access,
+         * system call and context switch of the library is one) is inside a loop that cannot
+         * observe any other thread: an unbounded loop in the code under test. */
+        static uint64_t last_steps = ~(uint64_t)0;
+        static int stuck;
+        if (G.steps == last_steps) {
+            if (++stuck >= 4) {
+                sim_write_result("viol", "hang:loop-without-sync-point", "12 s of CPU time without reaching any atomic access, system call or context switch");
+                _exit(3);
+            }
+        } else {
+            stuck = 0;
+            last_steps = G.steps;
+        }
+        return;
+    }
     snprintf(cls, sizeof cls, "signal:%s", nm);
     sim_write_result("crash", cls, "fatal signal inside the simulated run");
     _exit(4);
@@ -185,10 +204,12 @@ static void child_run(void)
     memset(&sa, 0, sizeof sa);
     sa.sa_handler = on_signal;
     sa.sa_flags = SA_ONSTACK | SA_NODEFER;
-    int sigs[] = { SIGSEGV, SIGBUS, SIGABRT, SIGFPE, SIGILL, SIGALRM };
+    int sigs[] = { SIGSEGV, SIGBUS, SIGABRT, SIGFPE, SIGILL, SIGALRM, SIGVTALRM };
     for (unsigned i = 0; i < sizeof sigs / sizeof sigs[0]; i++)
         sigaction(sigs[i], &sa, NULL);
-    alarm(120);
+    alarm(600);
+    struct itimerval itv = { { 3, 0 }, { 3, 0 } };
+    setitimer(ITIMER_VIRTUAL, &itv, NULL);
     wb_install();
     sim_run_begin();
     G.wl = pick_workload();
